@@ -140,6 +140,16 @@ CoarsenKeeps == parent # <<>> =>
    /\ \A j \in 1..(g.nt + 1) : g.ang[j] = parent.ang[2 * j - 1]
    /\ g.rad[1] = parent.rad[1] /\ g.rad[g.nr] = parent.rad[parent.nr] /\ g.ang[g.nt + 1] = parent.ang[parent.nt + 1]
 
+\* LevelCache(previous_level, coarse_grid): the coarse cache entry of node (i, j) is copied from the fine cache entry with the
+\* index fine.index(2i, 2j) - computed with the FINE grid's numbering (its own circle/radial split), stored under the COARSE
+\* grid's numbering.  It is the right entry iff that fine node is the same point, whatever the two splits are.
+CacheDerivation == parent # <<>> =>
+   \A p \in AllPos(g) :
+      LET src == FastIndex(parent, 2 * p[1], 2 * p[2])
+          m == MultiIndex(parent, src)
+      IN /\ src \in 0..(Nodes(parent) - 1)
+         /\ parent.rad[m[1] + 1] = g.rad[p[1] + 1] /\ parent.ang[m[2] + 1] = g.ang[p[2] + 1]
+
 (* ------------------------------ expectation table ------------------------ *)
 Table == [nr |-> g.nr, nt |-> g.nt, nc |-> g.nc, auto |-> g.auto, rad |-> g.rad, ang |-> g.ang,
           idx |-> [ir \in 1..g.nr |-> [k \in 1..(6 * g.nt + 1) |-> Index(g, ir - 1, k - 1 - 3 * g.nt)]],
